@@ -377,6 +377,25 @@ def run_check(prop, tier, budget=None, max_runs=None, workers=None, quiet=False)
                                            max_execs=400, max_seconds=60.0 if k is None else 10.0)
         path = write_replay(prop, item, mplan, mv, execs)
         ok = replay_fresh(path)
+        if not ok and getattr(w, "OBSERVED_IS_VIOLATION", False):
+            # C18: the property under test is determinism itself. A difference between two executions of the
+            # same plan is a violation the moment it is observed, even when it depends on allocator / collector
+            # state that a later process does not re-create. Try the unminimised plan a few times, then report
+            # it as observed, with the replay marked accordingly.
+            attempts = 1
+            path = write_replay(prop, item, item["plan"], v, 0)
+            mplan, mv = item["plan"], v
+            for _ in range(3):
+                attempts += 1
+                ok = replay_fresh(path)
+                if ok:
+                    break
+            if not ok:
+                mark_replay_observed_only(path, attempts, v)
+                print("NOTE violation %s/%s (seed %d) was observed once and did not recur in %d fresh replays "
+                      "(allocator/collector dependent); reported as observed" % (
+                          v["property"], v["oracle"], item["seed"], attempts), flush=True)
+                ok = True
         if not ok:
             print("HARNESS-ERROR violation %s/%s (seed %d) did not reproduce in a fresh interpreter; "
                   "replay kept at %s" % (v["property"], v["oracle"], item["seed"], path), flush=True)
@@ -438,6 +457,16 @@ def write_replay(prop, item, mplan, mv, execs):
     with open(path, "w") as f:
         f.write(json.dumps(json.loads(jdump(doc)), indent=1, sort_keys=True))
     return path
+
+
+def mark_replay_observed_only(path, attempts, v):
+    with open(path) as f:
+        doc = json.load(f)
+    doc["reproduced_in_fresh_interpreter"] = False
+    doc["fresh_replay_attempts"] = attempts
+    doc["observed_violation"] = json.loads(jdump(v))
+    with open(path, "w") as f:
+        f.write(json.dumps(doc, indent=1, sort_keys=True))
 
 
 def replay(path, verbose=True):
